@@ -1156,6 +1156,24 @@ def step_check(ctx, init, hist, m, op, base):
             ctx.violation("%s|leaf_value" % ocl, "scalar index returned the wrong atom", case, [a, c],
                           [got, res.coord.tolist()])
             return None
+        # 'a copy shares no mutable state with its original' also holds for the copy of a picked atom
+        # (whether the picked atom itself is a view of the container is unspecified, see ASSUMPTIONS)
+        try:
+            cp = res.copy()
+            cp.coord[...] = -55.5
+            cp.coord += 1.0
+            for k2 in list(cp._annot):
+                cp._annot[k2] = cp._annot[k2]  # re-binding only
+            shared = [float(x) for x in res.coord] != list(c)
+        except Exception as e:  # noqa: BLE001
+            ctx.violation("%s|leaf_copy_raises_%s" % (ocl, type(e).__name__), "copying a picked atom failed", case,
+                          "independent copy", repr(e)[:200])
+            return None
+        if shared:
+            ctx.violation("%s|leaf_copy_not_independent" % ocl,
+                          "editing the coordinates of Atom.copy() in place changed the atom it was copied from",
+                          case, list(c), res.coord.tolist())
+            return None
         return ("leaf",)
     m2 = verdict[1]
     key = canon_safe(res, m2)
